@@ -154,6 +154,7 @@ def generate(ck):
         else:
             descs.append(dict(base, kind="malformed", which=int(rng.integers(0, 6))))
     descs.append({"kind": "python-O", "curve": "ideal", "M": 1.0, "tau": 1.0, "end": 1.0, "n": 50, "t0": 0.0})
+    descs.append({"kind": "malformed-special", "curve": "ideal", "M": 1.0, "tau": 1.0, "end": 1.0, "n": 50, "t0": 0.0, "seed": int(ck.seed)})
     for cv in ("ideal", "fourier", "cubic-table"):
         descs.append({"kind": "never-produced", "curve": cv, "M": 0.0, "tau": 1.0, "end": 1.0, "n": 60, "t0": 0.0})
     return descs
@@ -214,6 +215,40 @@ def run_case(ck, desc):
                 ck.violation("bounded-least-squares-optimum", {"record": "identically zero", "M_": float(fo_.M_), "closed_form": Mb_[0]}, desc)
             ck.count("fits_of_a_well_that_never_produced")
         return True, {"fits": 5}
+    if kind == "malformed-special":
+        # lower >= upper with the special values a half-open bound is written with (an interval that is
+        # only `inf`, limits of opposite infinities, signed zeros, the largest floats, typed scalars,
+        # lists and arrays instead of tuples): every one is rejected, every proper interval next to it
+        # is accepted. The oracle is the IEEE comparison lo >= hi itself (NaN limits are outside the claim)
+        import itertools
+
+        vals = [-np.inf, -1e308, -1.0, -0.0, 0.0, 5e-324, 1.0, np.nextafter(1.0, 2.0), 1e308, np.inf, np.float32(2.5), np.int64(7), 3, True]
+        rng_ = np.random.default_rng(desc["seed"])
+        vals += [float(10.0 ** rng_.uniform(-9, 9)) for _ in range(3)]
+        wraps = [tuple, list, lambda ab: np.array(ab, dtype=float)]
+        n_rej = n_acc = 0
+        for (lo, hi), which, wrap in itertools.product(itertools.product(vals, vals), ("M", "tau"), wraps):
+            good = (0.0, 1.0)
+            kw = {"M": wrap((lo, hi)), "tau": good} if which == "M" else {"M": good, "tau": wrap((lo, hi))}
+            malformed = bool(lo >= hi)
+            try:
+                with warnings.catch_warnings():
+                    warnings.simplefilter("ignore")
+                    Bounds(**kw)
+                accepted, err = True, None
+            except ValueError:
+                accepted, err = False, None
+            except Exception as e:  # noqa: BLE001
+                accepted, err = False, repr(e)
+            if malformed and (accepted or err):
+                ck.violation("malformed-bounds-rejected", {"which": which, "limits": [repr(lo), repr(hi)], "container": getattr(wrap, "__name__", "ndarray"), "accepted": accepted, "raised": err}, desc)
+            elif not malformed and not accepted:
+                ck.violation("proper-bounds-accepted", {"which": which, "limits": [repr(lo), repr(hi)], "container": getattr(wrap, "__name__", "ndarray"), "raised": err or "ValueError"}, desc)
+            n_rej += malformed
+            n_acc += not malformed
+        ck.count("malformed_bounds_rejected", n_rej)
+        ck.count("proper_bounds_accepted", n_acc)
+        return True, {"rejected": n_rej, "accepted": n_acc}
     if kind == "malformed":
         bad = [
             lambda: Bounds(M=(1, 2, 3), tau=(0, 1)),
